@@ -215,7 +215,8 @@ def run(ctx):
 CLAIM = {
     "text": "Structural soundness preconditions of the unsafe shared-state code, decided on MIR for every path: UnsafeCell accessors that "
             "hand out references are `unsafe fn` (callers must state the invariant), the hand-off counters use Release/Acquire, and the "
-            "phase-restricted hash-table operations are dominated by their readiness gates. Pointer arithmetic inside row layouts depends on "
+            "phase-restricted hash-table operations are dominated by their readiness gates (the drain needs both drain_ready and scan_ready; "
+            "per-partition latches carry a gate only if every store of true is behind it). Pointer arithmetic inside row layouts depends on "
             "runtime sizes and is not decided.",
     "note": "trusted: rustc MIR; the gate table in rules/c16.py (confirmed by reading hash_join/mod.rs); counters identified by field name prefix `remaining`",
     "technique": "static analysis: declaration rule + ordering table + MIR must-pass-through gates (rustc_private driver)",
